@@ -10,6 +10,8 @@ class Ctx:
         self.seed = seed if seed else DEFAULT_SEED.get(tier, 1)
         self.t0 = time.time()
         self.notes = []
+        self.evidence_dir = os.environ.get("VERIF_EVIDENCE", os.path.join(V, "evidence"))
+        self.replay_dir = os.environ.get("VERIF_REPLAYS", os.path.join(V, "replays"))
 
 
 # ----------------------------------------------------------------------------- builds
@@ -99,7 +101,7 @@ def run_objsim(ctx, flavour, prop, runs, first, known_sigs, extra=()):
     out = os.path.join(ctx.B, "out", "%s-%s-%d.json" % (prop, flavour, os.getpid()))
     os.makedirs(os.path.dirname(out), exist_ok=True)
     cmd = [os.path.join(d, "objsim"), "--prop", prop, "--tier", ctx.tier, "--seed", str(ctx.seed), "--out", out,
-           "--outdir", os.path.join(ctx.B, "out"), "--workers", "16"]
+           "--outdir", os.path.join(ctx.B, "out"), "--workers", "16", "--replaydir", ctx.replay_dir]
     if runs:
         cmd += ["--runs", str(int(runs)), "--first", str(int(first))]
     if known_sigs:
@@ -142,7 +144,7 @@ def check_objsim(ctx):
             bad = [k for k in common if ref["digests"][k] != r["digests"][k]]
             ctx.notes.append("digests compared %s vs %s: %d seeds, %d differ" % (ref_f, flavour, len(common), len(bad)))
             if bad:
-                path = os.path.join(ctx.V, "replays", "%s-digest-%s-vs-%s-%d-%s.replay" % (ctx.pid, ref_f, flavour, ctx.seed, bad[0]))
+                path = os.path.join(ctx.replay_dir, "%s-digest-%s-vs-%s-%d-%s.replay" % (ctx.pid, ref_f, flavour, ctx.seed, bad[0]))
                 with open(path, "w") as f:
                     f.write("# cross-build digest mismatch: run %s of seed %d gives %s on %s and %s on %s\n" % (bad[0], ctx.seed, ref["digests"][bad[0]], ref_f, r["digests"][bad[0]], flavour))
                     f.write("prop %s\nflavour %s\nseed %d\nrun %s\nexpect cross-build-digest\nsig cross-build-digest:%s-vs-%s\nregen 1\n" % (ctx.pid, flavour, ctx.seed, bad[0], ref_f, flavour))
@@ -197,7 +199,7 @@ def finish(ctx, level, rule, results, violations, findings, extra_cov=None, assu
         "wall_s": round(wall, 3), "violations": len(violations),
         "known_findings": [{"sig": v["sig"], "what": k["what"], "occurrences": v.get("occurrences", 1)} for v, k in findings],
     }
-    with open(os.path.join(ctx.V, "evidence", ctx.pid + ".json"), "w") as f:
+    with open(os.path.join(ctx.evidence_dir, ctx.pid + ".json"), "w") as f:
         json.dump(ev, f, indent=1)
     for v, k in findings:
         print("KNOWN-FINDING: property=%s %s [sig=%s, %d occurrence(s) this run, flavour=%s, replay=%s]" % (ctx.pid, k["what"], v["sig"], v.get("occurrences", 1), v.get("flavour", "?"), v["replay"]))
